@@ -39,3 +39,36 @@ class FakeTransport:
     def clear(self):
         self.written = []
         self.events = []
+
+
+_clock = None
+
+
+def install_clock_reactor():
+    """A twisted task.Clock stands in for the global reactor (must run before
+    txdbus.client is imported: that module does `from twisted.internet import reactor`)."""
+    global _clock
+    import sys
+    from twisted.internet import task
+    if _clock is None:
+        if 'twisted.internet.reactor' in sys.modules:
+            r = sys.modules['twisted.internet.reactor']
+            if isinstance(r, task.Clock):
+                _clock = r
+            else:
+                raise RuntimeError('a real reactor is already installed')
+        else:
+            from twisted.internet.main import installReactor
+            _clock = task.Clock()
+            installReactor(_clock)
+    return _clock
+
+
+def fresh_clock():
+    """New virtual clock, also assigned to txdbus.client.reactor."""
+    install_clock_reactor()
+    from twisted.internet import task
+    from txdbus import client
+    c = task.Clock()
+    client.reactor = c
+    return c
